@@ -204,6 +204,19 @@ func genSplit(g *genCtx) {
 			emit(Case{"k": "split", "proto": p.proto, "req": p.req, "ref": r.Intn(256), "text": planText(r, p, total, ma)})
 		}
 	}
+	if g.part == "limit" {
+		// the 255-part limit: texts of ~39,000 septets / 34,000 octets; few, they are expensive to judge
+		for _, p := range plans {
+			if !(p.proto == "smpp" && (p.req == 99 || p.req == 1)) && !(p.proto == "cmpp" && p.req == 0) {
+				continue
+			}
+			emit(Case{"k": "split", "proto": p.proto, "req": p.req, "ref": 1, "text": planText(r, p, 255*p.per+1, nil)})
+			if len(p.multi) > 0 {
+				// 255 full parts, but an escape on the first cut pushes one septet into a 256th part
+				emit(Case{"k": "split", "proto": p.proto, "req": p.req, "ref": 2, "text": planText(r, p, 255*p.per, map[int]rune{p.per - 1: p.multi[0]})})
+			}
+		}
+	}
 	if g.part == "batch" {
 		// the parts returned by the batch encoder are judged like any other split (C09)
 		for _, proto := range []string{"CMPP", "SMPP"} {
